@@ -18,7 +18,15 @@ theorem ite_bind {α β} (c : Prop) [Decidable c] (p q : P α) (f : α → P β)
   split <;> rfl
 
 theorem fail_bind {α β} (msg : String) (f : α → P β) : (fail msg : P α) >>= f = fail msg := by
-  funext s; simp [bind_eq, fail]
+  funext s
+  rcases s with ⟨_ | ⟨t, ts⟩, l⟩ <;> rfl
+
+theorem failAt_bind {α β} (t : Tok) (msg : String) (f : α → P β) : (failAt t msg : P α) >>= f = failAt t msg := by
+  funext s; rfl
+
+theorem failTokAt_bind {α β} (t : Tok) (msg : String) (f : α → P β) :
+    (failTokAt t msg : P α) >>= f = failTokAt t msg := by
+  funext s; rfl
 
 theorem bind_pure'' {α} (p : P α) : (p >>= fun a => pure a) = p := by
   funext s; simp only [bind_eq]
